@@ -32,6 +32,16 @@ func Main(c16 bool) {
 		corpus = append(corpus, Case{Text: s, Stream: "corpus"})
 	}
 	ck.Run(corpus)
+	// 1f. an earlier statement that could switch a mode, before / around / in a closed block before a
+	// statement whose reading is mode-sensitive
+	csLevel := 1
+	if c16 {
+		csLevel = 0
+	}
+	if f.Thorough() {
+		csLevel++
+	}
+	ck.RunChunked(func(emit func(Case)) { CarriedState(csLevel, emit) })
 	// 1e. byte order mark and other format characters at the start of the text and at token boundaries
 	ck.Run(FormatChars())
 	// 1d. keywords that resemble `pattern`
@@ -120,7 +130,7 @@ func Main(c16 bool) {
 	})
 	ck.Finish()
 	res.Exhaustive = true
-	res.Rule = fmt.Sprintf("yang.Parse vs impl model (whole canonical result: forest with keywords, argument presence, argument bytes, nesting, order, file:line:col of every statement, or the error lines as (line, col, class)) on every text; yang.Parse vs the reference reader on every well-encoded admissible text. Streams: corpus (defect witnesses, /repo YANG files and test literals); format_chars: U+FEFF, U+200B, U+2060, U+00AD, U+200E, U+00A0, U+2028, U+0085, FF, VT at the very start of the text (once, twice, followed by blank / tab / line end / comment), before, inside and after tokens, inside strings and comments, at the start of line 2, in front of 7 bodies (accepted; stray }, missing ;, undefined escape, unterminated quote / comment, quoted keyword); pattern_lookalikes: 21 keywords (pattern, quoted pattern, posix-pattern, x:pattern, oc-ext:posix-pattern, pattern:x, a:b:pattern, patterns, Pattern, ...) x 16 arguments with undefined backslash pairs (also in later +-joined pieces) x 7 placements (alone, with a substatement, before / after / inside / around a real pattern statement); deep_runs: chains of nested blocks of depth 1..40 closed back to back (6 separators; one brace too few / too many; statements after the run) and homogeneous runs of 1..30, 40, 60, 100 tokens of 16 kinds (punctuation, blocks, statements, quoted strings, +-joined pieces, words, undefined escapes, comments), unseparated and separated; long_line: 6 (thorough: 8) paddings of 66000-70000 characters on one line (comment, blanks and tabs, single-quoted multi-byte string, concatenation, in the thorough tier a double-quoted string and an unquoted token) or as many lines (LF, CR LF), each followed on the same line by 8 tails (further statements; a stray }, an undefined escape, an unterminated quote or comment, a quoted keyword, a missing ;); exhaustive: every string of <= %d symbols over {a SP LF TAB ; { } \" ' \\ + / * n e-acute}, and of <= %d symbols behind `pattern ` and `x ` (one symbol less behind `posix-pattern ` and `x:pattern `); every sequence of <= %d whole tokens over {\"a\" 'b' \"+\" '+' + ; { } c \"\"} behind `x ` and `pattern ` (blank-separated, and unseparated for the shorter ones); every string content of <= %d (last three prefixes: %d) symbols over {a SP TAB LF \\ n \" e-acute} behind %d prefixes that put the opening quote at different tab-expanded columns (after a tab, a comment, a multi-byte character, a single-quoted piece, in a pattern argument); seeded random: %d layouts of random forests (one text in 20 with a byte order mark glued to its first keyword; one keyword in 12 a look-alike of pattern, half of those with pattern-style escapes; one statement in 20 a chain of depth 8-12 closed at once; quoting styles, + splitting, comment/blank/CRLF filler, continuation-line indentation, escapes), %d mutated texts (token/byte deletion, insertion, truncation, invalid UTF-8, error-budget overflow)%s. distinct_nontrivial = distinct texts containing a quote, a comment opener or a block",
+	res.Rule = fmt.Sprintf("yang.Parse vs impl model (whole canonical result: forest with keywords, argument presence, argument bytes, nesting, order, file:line:col of every statement, or the error lines as (line, col, class)) on every text; yang.Parse vs the reference reader on every well-encoded admissible text. Streams: corpus (defect witnesses, /repo YANG files and test literals); carried_state (generic parsing has no memory): prefix statements (the RFC 7950 statement keywords, a few prefixed ones and every word-like string literal of pkg/yang/lex.go and parse.go read at run time, each alone and with the arguments 1, 1.1, 2, true, false, x, pattern, invert-match and the same source literals, unquoted and double-quoted; yang-version also with 32 further arguments such as 1.0, 1.10, ' 1.1', '', 7950; yang-version and the source literals also single-quoted and split in two +-joined pieces) x 10 placements (earlier top-level statement, sibling before, parent, ancestor, inside an earlier closed block, earlier statement with a block, all at once, later statement on both sides) x 11 later statements whose reading is mode-sensitive (pattern with undefined escapes double- and single-quoted, in a later +-joined piece, over a line break, with substatements, nested in type; the same escapes in error-message / description / x:pattern, which must be rejected at the backslash; defined escapes) - the full product for yang-version (C02 and thorough: also for the source literals and 7 more keywords; C02 thorough: for all), four rotating (placement, later statement) pairs for the others; format_chars: U+FEFF, U+200B, U+2060, U+00AD, U+200E, U+00A0, U+2028, U+0085, FF, VT at the very start of the text (once, twice, followed by blank / tab / line end / comment), before, inside and after tokens, inside strings and comments, at the start of line 2, in front of 7 bodies (accepted; stray }, missing ;, undefined escape, unterminated quote / comment, quoted keyword); pattern_lookalikes: 21 keywords (pattern, quoted pattern, posix-pattern, x:pattern, oc-ext:posix-pattern, pattern:x, a:b:pattern, patterns, Pattern, ...) x 16 arguments with undefined backslash pairs (also in later +-joined pieces) x 7 placements (alone, with a substatement, before / after / inside / around a real pattern statement); deep_runs: chains of nested blocks of depth 1..40 closed back to back (6 separators; one brace too few / too many; statements after the run) and homogeneous runs of 1..30, 40, 60, 100 tokens of 16 kinds (punctuation, blocks, statements, quoted strings, +-joined pieces, words, undefined escapes, comments), unseparated and separated; long_line: 6 (thorough: 8) paddings of 66000-70000 characters on one line (comment, blanks and tabs, single-quoted multi-byte string, concatenation, in the thorough tier a double-quoted string and an unquoted token) or as many lines (LF, CR LF), each followed on the same line by 8 tails (further statements; a stray }, an undefined escape, an unterminated quote or comment, a quoted keyword, a missing ;); exhaustive: every string of <= %d symbols over {a SP LF TAB ; { } \" ' \\ + / * n e-acute}, and of <= %d symbols behind `pattern ` and `x ` (one symbol less behind `posix-pattern ` and `x:pattern `); every sequence of <= %d whole tokens over {\"a\" 'b' \"+\" '+' + ; { } c \"\"} behind `x ` and `pattern ` (blank-separated, and unseparated for the shorter ones); every string content of <= %d (last three prefixes: %d) symbols over {a SP TAB LF \\ n \" e-acute} behind %d prefixes that put the opening quote at different tab-expanded columns (after a tab, a comment, a multi-byte character, a single-quoted piece, in a pattern argument); seeded random: %d layouts of random forests (one text in 20 with a byte order mark glued to its first keyword; one keyword in 12 a look-alike of pattern, half of those with pattern-style escapes; one statement in 20 a chain of depth 8-12 closed at once; quoting styles, + splitting, comment/blank/CRLF filler, continuation-line indentation, escapes), %d mutated texts (token/byte deletion, insertion, truncation, invalid UTF-8, error-budget overflow)%s. distinct_nontrivial = distinct texts containing a quote, a comment opener or a block",
 		tokLen, prefLen, seqLen, conLen, conLen-1, len(QuotePrefixes), nLayout, nMal,
 		map[bool]string{true: fmt.Sprintf(", %d single-fault texts whose first positioned error must stand at the position the reference reader computes for the injected fault", nFault), false: ""}[c16])
 	res.Write(f.Out)
